@@ -482,7 +482,22 @@ func c06Additive(c *Ctx, a *sketchAnchors) {
 		}
 		// no loop-carried state besides the cursor
 		for _, comp := range loopSCCs(f) {
+			inComp := map[*ssa.BasicBlock]bool{}
 			for _, b := range comp {
+				inComp[b] = true
+			}
+			for _, b := range comp {
+				// only a φ that merges a value coming round the loop with one coming from outside carries state from
+				// one block to the next; a φ inside the body joins the arms of one iteration
+				entered := false
+				for _, pr := range b.Preds {
+					if !inComp[pr] {
+						entered = true
+					}
+				}
+				if !entered {
+					continue
+				}
 				for _, in := range b.Instrs {
 					if phi, ok := in.(*ssa.Phi); ok {
 						n++
@@ -583,7 +598,43 @@ func c06AppendOnly(c *Ctx, a *sketchAnchors) {
 					if p, ok := in.Addr.(*ssa.Parameter); ok && p == f.Params[bi] {
 						n++
 						vt := tc.Of(in.Val)
-						ok := vt.Op == "builtin" && vt.Sym == "append" && vt.Args[0].Op == "load" && vt.Args[0].Args[0].isParam(bi)
+						// append(*b, …), possibly built up in a local: a chain (or a loop-carried φ) of appends whose every
+						// root is the caller's buffer as loaded from the parameter
+						var rooted func(t *Term, depth int) bool
+						visiting := map[string]bool{}
+						rooted = func(t *Term, depth int) bool {
+							t = t.unver()
+							if t.Op == "phi" {
+								if visiting[t.Key()] {
+									return true // the loop-carried value itself: decided by its other edges
+								}
+								visiting[t.Key()] = true
+							}
+							switch {
+							case depth > 24:
+								return false
+							case t.Op == "load" && t.Args[0].isParam(bi):
+								return true
+							case t.Op == "builtin" && t.Sym == "append":
+								return rooted(t.Args[0], depth+1)
+							case t.Op == "phi":
+								es := tc.PhiEdges(t)
+								if len(es) == 0 {
+									return false
+								}
+								for _, e := range es {
+									if e.Key() == t.Key() {
+										continue
+									}
+									if !rooted(e, depth+1) {
+										return false
+									}
+								}
+								return true
+							}
+							return false
+						}
+						ok := vt.Op == "builtin" && vt.Sym == "append" && rooted(vt.Args[0], 0)
 						c.R.check(ok, rule, fmt.Sprintf("%s/buffer-store", shortFn(f)), shortFn(f), c.ipos(in), "the caller's buffer is only ever replaced by append(*b, …)", vt.Key())
 					}
 				case *ssa.Call:
